@@ -417,3 +417,57 @@ func init() {
 }
 
 var _ peer.ID
+
+// c17OpenOptions: the per-transfer subscriber given to OpenPush/OpenPullDataChannel sees exactly its channel's
+// events whatever other transfer options accompany it (none, transport options before it, after it) and whether
+// or not a transport configurer is registered for the voucher type; explored for both directions and every
+// driver state reachable from the open.
+func c17OpenOptions(x *mc.Cell) {
+	nop := func(datatransfer.ChannelID, datatransfer.Transport) error { return nil }
+	combos := []string{"subscriber", "transport-options+subscriber", "subscriber+transport-options", "subscriber+configurer"}
+	for _, role := range []Role{CreatedPush, CreatedPull} {
+		for _, state := range StatesFor(role) {
+			for _, combo := range combos {
+				role, state, combo := role, state, combo
+				rep := map[string]any{"role": RoleNames[role], "state": state, "options": combo}
+				run(x, "C17", Opts{Types: []string{"T"}}, rep, func(n *Node) {
+					g, per := &subLog{}, &subLog{}
+					n.Mgr.SubscribeToEvents(g.cb)
+					var opts []datatransfer.TransferOption
+					switch combo {
+					case "subscriber":
+						opts = []datatransfer.TransferOption{datatransfer.WithSubscriber(per.cb)}
+					case "transport-options+subscriber":
+						opts = []datatransfer.TransferOption{datatransfer.WithTransportOptions(nop), datatransfer.WithSubscriber(per.cb)}
+					case "subscriber+transport-options":
+						opts = []datatransfer.TransferOption{datatransfer.WithSubscriber(per.cb), datatransfer.WithTransportOptions(nop)}
+					case "subscriber+configurer":
+						_ = n.Mgr.RegisterTransportConfigurer("T", func(datatransfer.ChannelID, datatransfer.TypedVoucher) []datatransfer.TransportOption {
+							return []datatransfer.TransportOption{nop}
+						})
+						opts = []datatransfer.TransferOption{datatransfer.WithSubscriber(per.cb)}
+					}
+					chid := Setup(n, role, state, opts...)
+					mc.Wait()
+					var own []Ev
+					for _, e := range g.snapshot() {
+						if e.Chid == chid {
+							own = append(own, e)
+						}
+					}
+					lp := per.snapshot()
+					x.Premise++
+					x.Outcome(fmt.Sprintf("%s|%s|%d", RoleNames[role], state, len(own)))
+					if seqKey(own) != seqKey(lp) {
+						x.Violate("C17", fmt.Sprintf("open-options;per-transfer-subscriber-differs;options=%s;role=%s", combo, RoleNames[role]),
+							fmt.Sprintf("channel opened with %s and driven to %s: the per-transfer subscriber saw %v, the channel's events were %v", combo, state, codes(lp), codes(own)), rep)
+					}
+				})
+			}
+		}
+	}
+}
+
+func init() {
+	mc.Register("C17", "open-options-matrix", "both", c17OpenOptions)
+}
